@@ -358,13 +358,22 @@ def r_renaming(rule, root=None):
     # Output: `*reg = get_or_insert_active(*reg)`, allocated, pushed, counted, continue
     outs = [a for v, s, a in O.arms_by_variant(m, "SsaOp") if v == "Output"]
     # the first match in the loop handles Output before the skip test
-    first = [x for x in A.find(loop["body"], "Match") if any(v == "Output" and "continue" in A.unparse(a["body"]) for v, s, a in O.arms_by_variant(x, "SsaOp"))]
+    first = []  # (sub-patterns, arm-like node) of the Output case that leaves the iteration early
+    for x in A.find(loop["body"], "Match"):
+        for v, s, a in O.arms_by_variant(x, "SsaOp"):
+            if v == "Output" and "continue" in A.unparse(a["body"]):
+                first.append((s, a))
+    for x in A.find(loop["body"], "If"):
+        c_ = A.strip(x["cond"])
+        if c_.get("k") == "LetCond" and x.get("else") is None:
+            segs_, subs_ = A.pat_variant(c_["pat"])
+            if segs_ and segs_[-2:] == ["SsaOp", "Output"] and "continue" in A.unparse(x["then"]):
+                first.append((subs_, {"body": x["then"], "ln": x["ln"], "c": x.get("c")}))
     if len(first) != 1:
         rule.bad("Output|shape", "expected the Output arm that renames, allocates, pushes, counts and continues", A.where(fn, loop))
     else:
-        for v, s, a in O.arms_by_variant(first[0], "SsaOp"):
-            if v != "Output":
-                continue
+        for s, a in first:
+            v = "Output"
             rn = A.binding_name(s[0])
             txt = A.ftxt(a["body"])
             need = [
